@@ -39,6 +39,8 @@ type st struct {
 	sconn            *rt.Conn
 	srvReplyErr      error
 	sendErrs         []string
+	got              []string // "<side>:<id>" of every message a stream consumer received
+	srvSentOK        []string // ids of the server's messages whose send reported success
 	closeErr         error
 	snap             bool
 }
@@ -56,11 +58,14 @@ func drain(x *harness.X, name string, ch streams, closed *[4]bool, ended *bool) 
 	m, n, q, p := ch.MsgChan(), ch.NotChan(), ch.ReqCmdChan(), ch.RespCmdChan()
 	for m != nil || n != nil || q != nil || p != nil {
 		select {
-		case _, ok := <-m:
+		case msg, ok := <-m:
 			if !ok {
 				closed[0], m = true, nil
 			} else {
 				x.Obs("%s got message", name)
+				if st, _ := x.Vars["st"].(*st); st != nil {
+					st.got = append(st.got, name+":"+msg.ID)
+				}
 			}
 		case _, ok := <-n:
 			if !ok {
@@ -90,7 +95,7 @@ func isClosed(c <-chan struct{}) bool {
 }
 
 // channel-level scenarios: who ∈ client-finish, server-finish, server-fail
-func chanBody(kind, who string, pipeCap int, traffic bool) func(x *harness.X) {
+func chanBody(kind, who string, pipeCap int, traffic, muxConsumer bool) func(x *harness.X) {
 	return func(x *harness.X) {
 		lib.Reset()
 		s := &st{kind: kind, who: who}
@@ -111,15 +116,40 @@ func chanBody(kind, who string, pipeCap int, traffic bool) func(x *harness.X) {
 		defer cancel()
 		rt.BeginExplore()
 		// both sides keep consuming their inbound streams
-		go drain(x, "client", cc, &s.ccStreams, &s.cliConsumerEnded)
+		if muxConsumer {
+			// the client consumes through the library's own dispatch loop
+			cmux := &lime.EnvelopeMux{}
+			cmux.MessageHandlerFunc(nil, func(ctx context.Context, m *lime.Message, snd lime.Sender) error {
+				s.got = append(s.got, "client:"+m.ID)
+				return nil
+			})
+			go func() {
+				_ = cmux.ListenClient(context.Background(), cc)
+				x.Obs("client dispatch loop returned, state=%v", cc.State())
+				// the loop is this client's only consumer while the session lasts; once the
+				// receiver is done, what is left in the streams is looked at (they must be closed)
+				<-cc.RcvDone()
+				drain(x, "client", cc, &s.ccStreams, &s.cliConsumerEnded)
+			}()
+		} else {
+			go drain(x, "client", cc, &s.ccStreams, &s.cliConsumerEnded)
+		}
 		fromHandler := strings.HasSuffix(who, "-from-handler")
 		if !fromHandler {
 			go drain(x, "server", sc, &s.scStreams, &s.srvConsumerEnded)
 		}
 		if traffic {
 			go func() {
-				if err := sc.SendMessage(ctx, lib.Msg("s-1", "from server")); err != nil {
-					s.sendErrs = append(s.sendErrs, "server:"+err.Error())
+				n := 1
+				if muxConsumer {
+					n = 4 // more than the client's buffers hold
+				}
+				for i := 1; i <= n; i++ {
+					if err := sc.SendMessage(ctx, lib.Msg(fmt.Sprint("s-", i), "from server")); err != nil {
+						s.sendErrs = append(s.sendErrs, "server:"+err.Error())
+						return
+					}
+					s.srvSentOK = append(s.srvSentOK, fmt.Sprint("s-", i))
 				}
 			}()
 			go func() {
@@ -642,6 +672,21 @@ func final(x *harness.X, res *rt.Result) {
 		if s.scState != wantS {
 			x.Failf("observer-state:"+tag, "server state is %v after answering the finishing request %s", s.scState, hist)
 		}
+		// traffic in flight towards the finishing client: what the server wrote with success
+		// before its farewell reaches the client's streams, since the client keeps consuming
+		if s.ccState == wantC && s.cliConsumerEnded {
+			for _, id := range s.srvSentOK {
+				found := false
+				for _, g := range s.got {
+					if g == "client:"+id {
+						found = true
+					}
+				}
+				if !found {
+					x.Failf("in-flight-message-lost:"+tag, "the server sent %s with success before it finished the session, the client kept consuming until its streams were closed and never got it (got %v) %s", id, s.got, hist)
+				}
+			}
+		}
 	} else {
 		if s.scState != wantS {
 			x.Failf("initiator-state:"+tag, "server state is %v %s", s.scState, hist)
@@ -690,9 +735,12 @@ func main() {
 					name += "/traffic"
 					q, t = 1, 2
 				}
-				scs = append(scs, harness.Scenario{Name: name, Opt: opt, Quick: q, Thorough: t, Prune: true, Body: chanBody(kind, who, 64<<10, traffic), Final: final})
+				scs = append(scs, harness.Scenario{Name: name, Opt: opt, Quick: q, Thorough: t, Prune: true, Body: chanBody(kind, who, 64<<10, traffic, false), Final: final})
 			}
 		}
+	}
+	for _, kind := range []string{"inproc", "tcp"} {
+		scs = append(scs, harness.Scenario{Name: fmt.Sprintf("chan/%s/client-finish/traffic/dispatch-loop-consumer", kind), Opt: opt, Quick: 1, Thorough: 2, Prune: true, Body: chanBody(kind, "client-finish", 64<<10, true, true), Final: final})
 	}
 	topOpt := opt
 	for _, kind := range []string{"inproc", "tcp", "ws"} {
